@@ -59,6 +59,11 @@ func collect() {
 	methodSource("p/p2pke", "Channel", "getOrInit", "src_ch_getorinit")
 	methodSource("p/p2pke", "Session", "readHandshake", "src_sess_readhandshake")
 
+	// C10 / C11: what mbapp files reassembly state and outstanding asks under
+	methodSource("p/mbapp", "fragLayer", "handlePart", "src_mb_handlepart")
+	methodSource("p/mbapp", "Swarm", "handleAskReply", "src_mb_askreply")
+	methodSource("p/mbapp", "ask", "complete", "src_mb_askcomplete")
+
 	// C11 / C12 / C13: the hub and queue methods the Hub transition system was written against
 	methodSource("s/swarmutil", "TellHub", "Receive", "src_hub_tell_receive")
 	methodSource("s/swarmutil", "TellHub", "Deliver", "src_hub_tell_deliver")
